@@ -14,7 +14,6 @@ from .. import core, gen
 from . import c08
 
 ID = 'C09'
-FOUNDATIONS = ['harness.foundation.concurrent', 'harness.foundation.soak']   # the property's own functions under concurrent calls and call histories (validation)
 LEVEL = 'proof'
 RULE = ('corpus; _get_output decision: random (array, out, dtype) descriptor triples incl. every reject reason; '
         'out-sweep: every (function, out|output) pair of the public API (by introspection) x {valid, deprecated alias, '
